@@ -420,6 +420,8 @@ def build_cases(tier, seed):
             t = corpus.repeat_kernel(lines, times)
             tag = "rep%d" % times
         cases.append({"name": "%s+%s" % (name, tag), "arch": "zen1" if isa == "x86" else arm_models[j % 4], "text": t})
+    for w in corpus.windowed_cases(rng, 3 if tier == "quick" else 20):
+        cases.append({"name": w["name"], "arch": w["arch"], "text": w["text"], "lines": w["lines"]})
     # generated tractable
     ngen = 16 if tier == "quick" else 120
     for j in range(ngen):
